@@ -442,7 +442,7 @@ def run_rest(chk, quick, rnd, procs, exe, exe2, cidx, graphs, cases, po_cfgs):
     po_acts = [rand_po_actions(rnd, 250) for _ in range(nexec)]
     # directed: every type's value overwritten by another value of the SAME type (both orders), read back each time, then by
     # the value of another parameter; for float / double (1, 2 = the two zeros) and weq the two values compare equal under
-    # the type's operator== although they are distinguishable (seeded/C10-07)
+    # the type's operator== although they are distinguishable (seeded/C10-08)
     overwrite = []
     for t in PO_TYPES:
         for v1, v2 in ((1, 2), (2, 1)):
